@@ -14,6 +14,24 @@ ENGINES = [
 NOTES = "Property-based testing and fuzzing only. See DESIGN.md. Known findings: /verif/known_findings.json."
 NOT_APPLICABLE = {}
 CHECKS = {
+    "C12": {
+        "text": "History/schedule invariant over one input: every generated program, repository sample and two-file project is transpiled >=20 times (same process, concurrent threads, fresh processes, after a history of other inputs); verdicts must agree and successful outputs must be byte-identical. Each repetition redraws the hash seeds, which is the only schedule-dependent input of a program without shared state.",
+        "design_ref": "DESIGN.md section 6 C12",
+        "note": "Thread interleavings are not controlled (no shared mutable state in src/); a two-outcome dependence with probability p is missed with probability about (1-p)^20 + p^20 per input.",
+        "technique": "property-based testing: repeated-run / multi-thread / multi-process determinism oracle over generated inputs (Hypothesis)",
+    },
+    "C02": {
+        "text": "Generated-input search: CoreGen and typed-expression programs, all repository samples, their token-level mutations and a literal/identifier stress generator, both annotate settings; every emitted module must pass CPython's compile(). Sampled; three input classes of open known findings are filtered on the input and counted.",
+        "design_ref": "DESIGN.md section 6 C02",
+        "note": "CPython 3.11 is 'the Python 3 compiler'; only compile(), never execution.",
+        "technique": "property-based testing: grammar-based and mutation-based generation against CPython's compiler as oracle (Hypothesis)",
+    },
+    "C11": {
+        "text": "Differential check over ~4k (quick) generated programs, 1-mutation variants and every repository sample: annotate off vs on must give the same verdict and, after syntactic erasure of annotations and unused typing imports, identical Python ASTs.",
+        "design_ref": "DESIGN.md section 6 C11",
+        "note": "Erasure rules: AnnAssign->Assign, argument/return annotations dropped, unused `typing` imports dropped; unparsable output is left to C02.",
+        "technique": "property-based testing: metamorphic/differential comparison of two configurations (Hypothesis)",
+    },
     "C01": {
         "text": "Differential execution: ~2400 (quick) / ~100k (thorough) generated well-typed programs of the executable core language, transpiled with annotate off and on, executed in-process and compared (printed strings, uncaught exception class) with an independent reference interpreter of the model. Construct x context coverage is counted per run. Sampled, not exhaustive.",
         "design_ref": "DESIGN.md section 6 C01, section 3.1",
